@@ -162,6 +162,20 @@ def run(prop, tier=None, replay=None):
                     fi = (k + wi) % len(forms)
                     body = call if wn == "decl" else forms[fi].replace("%s", call)
                     inputs.append(("intrinsic-arity", w % body, {"name": nm, "args": na, "wrap": wn}))
+        # lines the READER interprets itself (INCLUDE lines, preprocessor lines, conditional-compilation sentinels, labels, construct
+        # names, continuation marks), well formed and cut short, with short and long operands
+        longn = "a_rather_long_file_name_of_more_than_forty_characters.inc"
+        rl = []
+        for nm in ("f.inc", longn, "dir/" + longn):
+            for q1, q2 in (("'", "'"), ('"', '"'), ("'", ""), ('"', ""), ("", "'"), ("'", '"'), ("'", "' x"), ('"', '" ! c'), ("'", "''")):
+                rl.append("include %s%s%s" % (q1, nm, q2))
+        for d in ("#include \"%s" % longn, "#include <%s" % longn, "#define " + "A" * 60 + "(", "#if " + "(" * 40, "#ifdef", "# " + "9" * 30, "#line 3 \"" + "x" * 50,
+                  "!$ " + "x" * 70 + " = 1 &", "!$omp" + " p" * 40, "c$ x = 1", "*$ x = 1", "1234567 x = 1", "12345 nm_" + "z" * 70 + ": do i = 1, 2", "nm : : do",
+                  "x = 'a" + "b" * 80 + " &", "x = 1 &", "&", "& &", "x = 1; ; ; y = 2", ";", "x = 1 ;"):
+            rl.append(d)
+        for k, line in enumerate(rl):
+            for wn, w in (wraps[0], wraps[2]) if tier == "quick" else wraps[:4]:
+                inputs.append(("reader-lines", w % line, {"line": line, "wrap": wn}))
         # invalid UTF-8 at different position classes of a file
         base = "program p\n  character(len=3) :: s\n  s = 'abc' ! comment\n  print *, s\nend program p\n".encode()
         positions = [0, 8, 10, 20, 38, 45, 50, 60, len(base) - 1, len(base)]
@@ -228,7 +242,9 @@ def run(prop, tier=None, replay=None):
                         best = max(best, depth)
                     elif ch in ")]":
                         depth -= 1
-                sig["brackets_nested_30_deep_or_more"] = best >= 30
+                # ... or a chain of 150 or more binary operators in one statement (a left-nested tree of that depth)
+                chain = max([len([1 for ch in ln if ch in "+-*/"]) for ln in (c["src"] if isinstance(c["src"], str) else "").split("\n")] or [0])
+                sig["expression_nested_30_brackets_or_150_operators_deep"] = best >= 30 or chain >= 150
             what = "C06: %s escaped from %s (via %s)%s: %s" % (o.get("type"), o.get("site"), o.get("via"), " while printing" if o.get("while") else "", o.get("msg"))
         src = c["src"] if c["fam"] != "badbyte" else repr(bytes(c["src"]))
         chk.violation(sig, what + "\n" + str(src)[:500], {"src": c["src"], "prov": c["prov"], "fam": c["fam"]})
